@@ -1,3 +1,6 @@
+#[cfg(feature = "divan_verif")]
+use crate::verif::vstd as std;
+
 use std::{
     cell::UnsafeCell,
     fmt,
@@ -29,6 +32,9 @@ mod tests;
 mod args;
 mod defer;
 mod options;
+
+#[cfg(feature = "divan_verif")]
+pub(crate) mod verif_access;
 
 use defer::{DeferSlot, DeferStore};
 
@@ -684,7 +690,22 @@ impl<'a> BenchContext<'a> {
             Some(Timestamp::start(timer_kind))
         };
 
+        #[cfg(feature = "divan_verif")]
+        verif_access::initial_start(initial_start.is_some());
+
         let bench_overheads = timer.bench_overheads();
+
+        #[cfg(feature = "divan_verif")]
+        verif_access::loop_begin(
+            current_mode,
+            rem_samples,
+            timer_precision,
+            min_picos,
+            max_picos,
+            skip_ext_time,
+            thread_count,
+            bench_overheads,
+        );
 
         while {
             // Conditions for when sampling is over:
@@ -770,6 +791,9 @@ impl<'a> BenchContext<'a> {
             // If testing, exit the benchmarking loop immediately after timing a
             // single run.
             if is_test {
+                #[cfg(feature = "divan_verif")]
+                verif_access::test_break();
+
                 break;
             }
 
@@ -869,6 +893,15 @@ impl<'a> BenchContext<'a> {
                 let progress_picos = slowest_time.picos.max(1_000);
                 elapsed_picos = elapsed_picos.saturating_add(progress_picos);
             }
+
+            #[cfg(feature = "divan_verif")]
+            verif_access::round_end(
+                current_mode,
+                rem_samples,
+                elapsed_picos,
+                &self.samples,
+                raw_samples,
+            );
         }
 
         // Reset flag for ignoring allocations.
@@ -910,6 +943,9 @@ impl<'a> BenchContext<'a> {
                 if let Some(alloc_info) = ThreadAllocInfo::try_current() {
                     // SAFETY: We have exclusive access.
                     saved_alloc_info = unsafe { alloc_info.as_ptr().read() };
+
+                    #[cfg(feature = "divan_verif")]
+                    verif_access::tally_snapshot(&saved_alloc_info);
                 }
             };
 
@@ -944,6 +980,9 @@ impl<'a> BenchContext<'a> {
                         let alloc_info = unsafe { alloc_info.as_mut() };
 
                         alloc_info.clear();
+
+                        #[cfg(feature = "divan_verif")]
+                        verif_access::tally_clear();
 
                         // Synchronize all threads.
                         if let Some(barrier) = barrier {
